@@ -115,7 +115,7 @@ def gen_spec(rng):
     return spec
 
 
-def judge_gradient(obs, spec, cfg, gres, fvals, pvals, tag):
+def judge_gradient(obs, spec, cfg, gres, fvals, pvals, tag, judge_merged_values=True):
     """fvals: (R,F) raw function values at x; pvals: (R,P,F) raw perturbed values. Returns True if judged non-trivially."""
     n_obj = len(spec["oweights"])
     n_con = spec["n_con"]
@@ -165,6 +165,8 @@ def judge_gradient(obs, spec, cfg, gres, fvals, pvals, tag):
     D = (pv - x[None, None, :])[..., mask]
     ests = spec.get("estimators") or ["mean"]
     judged = False
+    if spec.get("merge") and not judge_merged_values:
+        return True  # C03: merged values are judged relatively (differential run), absolute exactness is C02's
     for j in range(F):
         isobj = j < n_obj
         jj = j if isobj else j - n_obj
